@@ -305,6 +305,25 @@ func validTagParam(p string) ([]string, bool) {
 
 var c17Set = pongo2.NewSet("c17", &memLoader{})
 
+// c17Literals: the ways to write s as a string literal of the template language (none if s holds
+// what a literal cannot: control characters, invalid UTF-8 - or delimiters, kept out of this check)
+func c17Literals(s string) []string {
+	if !utf8.ValidString(s) || len(s) > 64 {
+		return nil
+	}
+	for _, r := range s {
+		if r < ' ' || r == 0x7f || strings.ContainsRune("{}%#", r) {
+			return nil
+		}
+	}
+	esc := strings.ReplaceAll(strings.ReplaceAll(s, "\\", "\\\\"), "\"", "\\\"")
+	lits := []string{"\"" + esc + "\""}
+	if !strings.Contains(s, "'") {
+		lits = append(lits, "'"+esc+"'", "'"+strings.ReplaceAll(s, "\\", "\\\\")+"'")
+	}
+	return lits
+}
+
 func checkC17(c any, r *Rec) error {
 	cs := c.(*c17Case)
 	in := string(cs.Input)
@@ -344,6 +363,15 @@ func checkC17(c any, r *Rec) error {
 		frag = "{% if 1 %}" + frag + "{% endif %}"
 	}
 	src := "{% autoescape off %}" + frag + "{% endautoescape %}"
+	if cs.Wrap == "filtertag_on" {
+		// the filter tag with autoescaping ON: the chain is applied to the rendered body - here the
+		// raw value, printed with the safe opt-out - and nothing else happens to it
+		src = "{% filter " + f
+		if f == "removetags" {
+			src += ":p"
+		}
+		src += " %}{{ v|safe }}{% endfilter %}"
+	}
 	tpl, cerr := c17Set.FromString(src)
 	if cerr != nil {
 		return fmt.Errorf("template %q does not compile: %v", src, cerr)
@@ -398,6 +426,25 @@ func checkC17(c any, r *Rec) error {
 	out := v.String()
 	if out != tout {
 		return fmt.Errorf("%s on %q: ApplyFilter gives %q, template syntax gives %q", f, in, out, tout)
+	}
+	// the same text written into the template as a string literal (every spelling of it: double
+	// quotes with \" and \\, single quotes with the double quote escaped or not)
+	if lits := c17Literals(in); cs.Wrap == "" && len(lits) > 0 {
+		for _, lit := range lits {
+			lsrc := "{% autoescape off %}{{ " + lit + "|" + f
+			if f == "removetags" {
+				lsrc += ":p"
+			}
+			lsrc += " }}{% endautoescape %}"
+			ltpl, lerr := c17Set.FromString(lsrc)
+			if lerr != nil {
+				return fmt.Errorf("%s does not compile: %v", lsrc, lerr)
+			}
+			lout, lxerr := ltpl.Execute(pongo2.Context{"p": cs.Param})
+			if lxerr != nil || lout != tout {
+				return fmt.Errorf("%s on the literal %s: %q (err %v); on the same text %q taken from the context: %q", f, lit, lout, lxerr, in, tout)
+			}
+		}
 	}
 	switch f {
 	case "escape", "e":
@@ -487,10 +534,10 @@ func genC17Param(t *rapid.T) string {
 
 var _ = register(&propSpec{
 	ID:   "C17.filter",
-	Rule: "one of the 9 escaping filters applied (through ApplyFilter and through {{ v|f }} inside an autoescape-off region - directly or inside a for, with, set, macro or if written there -, which must agree) to strings mixing specials, entities, backslash sequences, tags, multi-byte/astral runes, control chars and invalid UTF-8; oracle per filter in both directions (forbidden characters absent AND an independent decoder/reference returns the input). Non-trivial: input contains a character of the filter's special set or invalid UTF-8; distinct by (filter, param, input).",
+	Rule: "one of the 9 escaping filters applied (through ApplyFilter and through {{ v|f }} inside an autoescape-off region - directly or inside a for, with, set, macro or if written there; also as the chain of a filter tag under autoescape on whose body prints the raw value -, which must agree) to strings mixing specials, entities, backslash sequences, tags, multi-byte/astral runes, control chars and invalid UTF-8; oracle per filter in both directions (forbidden characters absent AND an independent decoder/reference returns the input). Non-trivial: input contains a character of the filter's special set or invalid UTF-8; distinct by (filter, param, input).",
 	Gen: func(t *rapid.T) any {
 		f := pick(t, "filter", c17Filters)
-		cs := &c17Case{Filter: f, Input: genC17Input(t), SafeIn: drawInt(t, 0, 4, "safein") == 0, Wrap: pick(t, "wrap", []string{"", "", "", "for", "with", "set", "macro", "if"})}
+		cs := &c17Case{Filter: f, Input: genC17Input(t), SafeIn: drawInt(t, 0, 4, "safein") == 0, Wrap: pick(t, "wrap", []string{"", "", "", "for", "with", "set", "macro", "if", "filtertag_on"})}
 		if f == "removetags" {
 			cs.Param = genC17Param(t)
 		}
